@@ -1,5 +1,5 @@
 """C05 — operator chains compile to an equivalent operator graph (OpGraph.from_opchains) and MPO (MPO.from_opgraph)."""
-import itertools, random
+import itertools, random, math
 from fractions import Fraction
 from types import SimpleNamespace
 import numpy as np
@@ -67,7 +67,7 @@ def qi_lit(re, im):
         if re.denominator == 1:
             return '(qz %s)' % E.z(re.numerator)
         return '(qr %s %d)' % (E.z(re.numerator), re.denominator)
-    den = re.denominator * im.denominator // np.gcd(re.denominator, im.denominator)
+    den = re.denominator * im.denominator // math.gcd(re.denominator, im.denominator)
     den = int(den)
     return '(qq %s %s %d)' % (E.z(int(re * den)), E.z(int(im * den)), den)
 
@@ -245,6 +245,17 @@ def gen_chains_case(rng, Lmax=6, nmax=8, tag='rand'):
         chains[0]['coeff'] = rng.choice([[5, 0, 2], [-3, 0, 1], [7, 0, 8], [2, 0, 1], [-1, 0, 1]])
     if all(c['coeff'][0] == 0 and c['coeff'][1] == 0 for c in chains):
         chains[0]['coeff'] = [3, 0, 8]
+    # magnitude regimes: a common power-of-two factor on all coefficients (exact in binary64), or one chain far below the others
+    r = rng.random()
+    if r < 0.12:
+        k = rng.choice([-100, -60, -40, -30, -27, 30, 60])
+        for c in chains:
+            c['coeff'] = [c['coeff'][0] * 2 ** max(k, 0), c['coeff'][1] * 2 ** max(k, 0), c['coeff'][2] * 2 ** max(-k, 0)]
+        tag += '/scale2^%d' % k
+    elif r < 0.20:
+        c = rng.choice(chains)
+        c['coeff'] = [c['coeff'][0], c['coeff'][1], c['coeff'][2] * 2 ** 40]
+        tag += '/one-tiny'
     return {'kind': 'chains', 'tag': tag + '/' + mode, 'L': L, 'idn': idn, 'chains': chains, 'qd': qd,
             'opmap': _opmap(rng, d, alphabet, idn, dq if mode == 'charged' else None, qd)}
 
@@ -618,7 +629,7 @@ def _mpo_props(case, gj, m, msgs):
     if d ** len(m['A']) <= 256:
         dense = _dense_from_mpo(m)
         ref = _dense_from_graph(gj, opmap, d)
-        scale = 1 + np.abs(ref).max()
+        scale = np.abs(ref).max() if np.abs(ref).max() > 0 else 1.0
         if dense.shape != ref.shape or np.abs(dense - ref).max() > 1e-9 * scale:
             msgs.append('dense MPO differs from the operator denoted by the graph')
         if case['kind'] == 'chains':
@@ -632,7 +643,7 @@ def _mpo_props(case, gj, m, msgs):
                 for o in w:
                     op = np.kron(op, opmap[o])
                 tot = tot + cnum(c['coeff']) * op
-            if np.abs(dense - tot).max() > 1e-9 * (1 + np.abs(tot).max()):
+            if np.abs(dense - tot).max() > 1e-9 * (np.abs(tot).max() if np.abs(tot).max() > 0 else 1.0):
                 msgs.append('dense MPO differs from the sum of identity-padded chains')
 
 
